@@ -368,10 +368,56 @@ def normalise_tree(tree):
 def unparse(node):
     """ast.unparse; a tuple is written without its outer parentheses (as in a subscript
     or a for-target), so that the text of a node does not depend on where it stands"""
+    if any(isinstance(x, (ast.ListComp, ast.SetComp, ast.DictComp, ast.GeneratorExp)) for x in ast.walk(node)):
+        node = _canonical_comprehension_vars(node)
     t = ast.unparse(node)
     if isinstance(node, ast.Tuple) and t.startswith("(") and t.endswith(")"):
         t = t[1:-1]
     return t
+
+
+def _canonical_comprehension_vars(node):
+    """copy of node in which the variables bound by each comprehension are called _c0, _c1, ...
+    (numbered per comprehension, outermost first): their names are not observable"""
+    import copy
+    node = copy.deepcopy(node)
+
+    def rename(comp, base):
+        mapping = {}
+        for g in comp.generators:
+            for x in ast.walk(g.target):
+                if isinstance(x, ast.Name) and x.id not in mapping:
+                    mapping[x.id] = "_c%d" % (base + len(mapping))
+
+        class R(ast.NodeTransformer):
+            def visit_Name(self, n):
+                if n.id in mapping:
+                    n.id = mapping[n.id]
+                return n
+
+        # the first iterable is evaluated in the enclosing scope
+        first_iter = comp.generators[0].iter
+        for fld in ("elt", "key", "value"):
+            if hasattr(comp, fld):
+                setattr(comp, fld, R().visit(getattr(comp, fld)))
+        for i, g in enumerate(comp.generators):
+            g.target = R().visit(g.target)
+            g.ifs = [R().visit(c) for c in g.ifs]
+            if i > 0:
+                g.iter = R().visit(g.iter)
+        comp.generators[0].iter = first_iter
+        return len(mapping)
+
+    def visit(n, base=0):
+        # numbering restarts at every outermost comprehension and continues into nested ones, so
+        # that the text of a statement does not depend on what else is printed with it
+        if isinstance(n, (ast.ListComp, ast.SetComp, ast.DictComp, ast.GeneratorExp)):
+            base = base + rename(n, base)
+        for ch in ast.iter_child_nodes(n):
+            visit(ch, base)
+
+    visit(node)
+    return node
 
 
 @functools.lru_cache(maxsize=None)
@@ -391,7 +437,7 @@ def canon(src, squeeze=True):
         if len(tree.body) == 1 and isinstance(tree.body[0], ast.Expr):
             t = unparse(tree.body[0].value)
         else:
-            t = ast.unparse(tree)
+            t = unparse(tree)
     except SyntaxError:
         t = src.replace('"', "'")
     return "".join(t.split()) if squeeze else " ".join(t.split())
